@@ -10,7 +10,11 @@ SPEC = dict(
                 "with Options.ScoreSegments/CalcBudget wrapping the package defaults and recording every call (CPlanT: plan, "
                 "the sequence of scored rosters and the CalcBudget arguments must equal the model's), with a synthetic integer "
                 "score for lists of hundreds/thousands (CPlanS), with nil options, and mergeplan.CalcBudget on a grid inside "
-                "the exactness domain of the Z/Q model (CBudget); a case is non-trivial when the plan has at least one task / "
+                "the exactness domain of the Z/Q model (CBudget); from REAL index.Writer runs (in-memory directory, small "
+                "MergePlanOptions, 30 batches of inserts/updates/deletes, the harness waits for persister and merger to be "
+                "idle between batches): every plan of the merger (CPlanW: persisted segments of the root the planner saw, "
+                "hook log, tasks = merge introductions until the merger's progress event) and every merge introduction "
+                "(CApply: root before, merged ids, new id, root after = Plan.apply_task); a case is non-trivial when the plan has at least one task / "
                 "the budget is positive; distinct = distinct Coq case terms. oracle evaluations: per Plan call the "
                 "well-formedness clauses (tasks inside the input, no segment twice, sum of live sizes <= MaxSegmentSize, no "
                 "segment above half of it), termination under a time guard and an iteration bound, the same plan on a second "
@@ -20,8 +24,10 @@ SPEC = dict(
     trust=["the score function (Options.ScoreSegments, default mergeplan.ScoreSegments with math.Pow) is a parameter of the "
            "model; the harness records the default's value for every roster the planner scores and the model is run with "
            "that table",
-           "applying a plan (merge.go/introducer.go) is modelled on sizes only and is not tied to the Writer by a "
-           "correspondence case: one task becomes one segment whose size is the sum of the live sizes"],
+           "applying a plan (merge.go/introducer.go) is modelled on sizes only (one task becomes one segment whose size is "
+           "the sum of the live sizes, no deletion arriving between planning and introduction); it is tied to a real Writer "
+           "by the CApply/CPlanW cases under that quiescence condition (harness/engines/plan_writer.go); the snapshot the "
+           "planner saw is identified among the last four roots by the CalcBudget arguments the hook received"],
     assumptions=["segment ids are distinct (documented by mergeplan.Segment.ID); removeSegments' pointer identity is "
                  "modelled as equality of ids",
                  "CalcBudget's float64 arithmetic is modelled over Z/Q: exact for totalSize, tier < 2^40, "
